@@ -470,4 +470,130 @@ def PhasesOK [LE Q] [DecidableLE Q] [LT S] [DecidableLT S] (n : Nat) (o : Oracle
   | ph :: rest, st => WF ph.cfg n ∧ Rest ph.cfg n (ph.enter st) ∧
       PhasesOK n o rest (optimize ph.cfg o ph.call.conv ph.call.maxIter ph.call.sched (ph.enter st)).st
 
+/-! ### adding a clamp: the index shift (round 6d) -/
+
+theorem getElem?_ins {α : Type} (l : List α) (k : Nat) (x : α) (hk : k ≤ l.length) (j : Nat) :
+    (l.take k ++ x :: l.drop k)[j]? = if j < k then l[j]? else if j = k then some x else l[j - 1]? := by
+  have hlen : (l.take k).length = k := by simp [List.length_take, Nat.min_eq_left hk]
+  by_cases h1 : j < k
+  · rw [if_pos h1, List.getElem?_append_left (by rw [hlen]; exact h1), List.getElem?_take]; simp [h1]
+  · rw [if_neg h1, List.getElem?_append_right (by rw [hlen]; omega), hlen]
+    by_cases h2 : j = k
+    · subst h2; simp
+    · rw [if_neg h2]
+      obtain ⟨m, hm⟩ : ∃ m, j - k = m + 1 := ⟨j - k - 1, by omega⟩
+      rw [hm, List.getElem?_cons_succ, List.getElem?_drop]; congr 1; omega
+
+theorem mem_ins {α : Type} (l : List α) (k : Nat) (x y : α) : y ∈ l.take k ++ x :: l.drop k ↔ y = x ∨ y ∈ l := by
+  rw [List.mem_append, List.mem_cons]
+  conv_rhs => rw [← List.take_append_drop k l, List.mem_append]
+  tauto
+
+/-- the configuration after `add_clamp` put a clamp with position function `newPos` on junction `idx`, the new clamp
+    being number `k` in `GridBase.clamps` (the junctions are walked in index order: the clamps on higher junctions
+    are renumbered) -/
+def Cfg.addClampAt (cfg : Cfg P Prm) (k idx : Nat) (newPos : Prm → P) : Cfg P Prm :=
+  { clampIdx := cfg.clampIdx.take k ++ idx :: cfg.clampIdx.drop k,
+    pos := fun j p => if j < k then cfg.pos j p else if j = k then newPos p else cfg.pos (j - 1) p,
+    links := cfg.links, linkFn := cfg.linkFn }
+
+/-- the held parameters, the new clamp's inserted at its number -/
+def St.addPrmAt (st : St P Prm) (k : Nat) (p : Prm) : St P Prm :=
+  { pts := st.pts, prm := st.prm.take k ++ p :: st.prm.drop k }
+
+theorem linksOf_addClampAt (cfg : Cfg P Prm) (k idx : Nat) (newPos : Prm → P) (i : Nat) :
+    linksOf (cfg.addClampAt k idx newPos) i = linksOf cfg i := rfl
+
+/-- **Index shift.** A rest state stays a rest state when a clamp is added whose position function reproduces the
+    vertex it is put on (and the followers of links that vertex already leads are where the links put them). -/
+theorem rest_addClampAt {cfg : Cfg P Prm} {n : Nat} {st : St P Prm} (hr : Rest cfg n st) (k idx : Nat)
+    (newPos : Prm → P) (p : Prm) (hk : k ≤ cfg.clampIdx.length) (hon : st.pts[idx]? = some (newPos p))
+    (hfol : ∀ l ∈ linksOf cfg idx, st.pts[l.follower]? = some (cfg.linkFn l.lid (newPos p))) :
+    Rest (cfg.addClampAt k idx newPos) n (st.addPrmAt k p) := by
+  obtain ⟨h1, h2, h3⟩ := hr
+  have hk' : k ≤ st.prm.length := by rw [h2]; exact hk
+  refine ⟨h1, ?_, ?_⟩
+  · simp only [St.addPrmAt, Cfg.addClampAt, List.length_append, List.length_cons, List.length_take, List.length_drop]
+    omega
+  · intro j i q hj hq
+    simp only [Cfg.addClampAt] at hj
+    simp only [St.addPrmAt] at hq
+    rw [getElem?_ins _ _ _ hk] at hj
+    rw [getElem?_ins _ _ _ hk'] at hq
+    simp only [linksOf_addClampAt]
+    show (st.pts[i]? = some ((cfg.addClampAt k idx newPos).pos j q)) ∧ _
+    simp only [Cfg.addClampAt]
+    by_cases c1 : j < k
+    · simp only [c1, if_true] at hj hq ⊢
+      exact h3 j i q hj hq
+    · by_cases c2 : j = k
+      · subst c2
+        simp only [Nat.lt_irrefl, if_false, if_true] at hj hq ⊢
+        cases hj; cases hq
+        exact ⟨hon, hfol⟩
+      · simp only [c1, c2, if_false] at hj hq ⊢
+        exact h3 (j - 1) i q hj hq
+
+/-- the configuration stays well-formed when the junction is new to the clamps, leads no link yet and follows no
+    clamped leader -/
+theorem wf_addClampAt {cfg : Cfg P Prm} {n : Nat} (hwf : WF cfg n) (k idx : Nat) (newPos : Prm → P) (hi : idx < n)
+    (hnew : idx ∉ cfg.clampIdx) (hlead : ∀ l ∈ cfg.links, l.leader ≠ idx)
+    (hfol : ∀ l ∈ cfg.links, l.leader ∈ cfg.clampIdx → l.follower ≠ idx) : WF (cfg.addClampAt k idx newPos) n := by
+  have hmem : ∀ y, y ∈ (cfg.addClampAt k idx newPos).clampIdx ↔ y = idx ∨ y ∈ cfg.clampIdx := fun y => mem_ins _ _ _ _
+  have hlm : ∀ l ∈ cfg.links, (l.leader ∈ (cfg.addClampAt k idx newPos).clampIdx ↔ l.leader ∈ cfg.clampIdx) := by
+    intro l hl
+    rw [hmem]
+    constructor
+    · rintro (h | h)
+      · exact absurd h (hlead l hl)
+      · exact h
+    · exact Or.inr
+  refine ⟨?_, ?_, ?_, ?_, ?_⟩
+  · have hp : (cfg.clampIdx.take k ++ idx :: cfg.clampIdx.drop k).Perm (idx :: cfg.clampIdx) := by
+      have := (List.perm_middle (l₁ := cfg.clampIdx.take k) (l₂ := cfg.clampIdx.drop k) (a := idx))
+      rwa [List.take_append_drop] at this
+    exact hp.nodup_iff.mpr (List.nodup_cons.mpr ⟨hnew, hwf.nodup⟩)
+  · intro i hi'
+    rcases (hmem i).mp hi' with rfl | h
+    · exact hi
+    · exact hwf.inRange i h
+  · intro l hl hle
+    exact hwf.folRange l hl ((hlm l hl).mp hle)
+  · intro l hl hle hfl
+    rcases (hmem _).mp hfl with h | h
+    · exact hfol l hl ((hlm l hl).mp hle) h
+    · exact hwf.folFree l hl ((hlm l hl).mp hle) h
+  · have : (cfg.addClampAt k idx newPos).links.filter (fun l => decide (l.leader ∈ (cfg.addClampAt k idx newPos).clampIdx))
+        = cfg.links.filter (fun l => decide (l.leader ∈ cfg.clampIdx)) := by
+      apply List.filter_congr
+      intro l hl
+      exact decide_eq_decide.mpr (hlm l hl)
+    rw [this]; exact hwf.folNodup
+
+/-! ### an exception that propagates (round 6d) -/
+
+/-- whatever every `moveClamp` preserves holds in the state the evaluations before the raising one left -/
+theorem optimizeAbortPre_pres [LE Q] [DecidableLE Q] [LT S] [DecidableLT S] {cfg : Cfg P Prm} {o : Oracles P Q}
+    {I : St P Prm → Prop} {A : Nat → Prm → Prop} (hp : Preserved cfg o I A) (conv : List (Q × Q) → Bool)
+    (sched : Nat → IterSched Prm S) (hs : ∀ k, SchedOK A (sched k)) (st : St P Prm) (hI : I st) (it s m : Nat) :
+    I (optimizeAbortPre cfg o conv sched st it s m).st := by
+  have ha := optimize_pres hp conv it sched hs st hI
+  unfold optimizeAbortPre
+  dsimp only
+  split
+  · exact ha
+  · have hb := probeAll_pres hp (sched it) (hs it) _ (zipIdx_clampIdx cfg) _ ha
+    split
+    · next stb _ e heq => rw [heq] at hb; exact hb
+    · next stb keys heq =>
+        rw [heq] at hb
+        have hc := solveAll_pres hp (sched it) (hs it) (((sortDesc keys).map (·.1)).take s) 0 stb hb
+        split
+        · next j _ hj =>
+            split
+            · next idx e hidx he =>
+                exact runEvals_pres hp hidx _ _ hc (fun x hx => (hs it).2 s j x (List.mem_of_mem_take hx))
+            · exact hc
+        · exact hc
+
 end CBV.C13
